@@ -254,6 +254,12 @@ def check(prop, tier, seed, replay=None):
     try:
         exes = V.build_many(exe_jobs())
         traces, model_info, required = [], [], []
+        if not replay:
+            # replay files of an earlier run of this property are stale now
+            rdir = os.path.join(V.VERIF, "replays")
+            for f in (os.listdir(rdir) if os.path.isdir(rdir) else []):
+                if re.fullmatch(prop + r"-\d+\.json", f):
+                    os.remove(os.path.join(rdir, f))
         if replay:
             rp = json.load(open(replay))
             if rp.get("group") is None:
@@ -292,6 +298,11 @@ def check(prop, tier, seed, replay=None):
             if missing:
                 # the code under test behaved so differently that planned cells stayed empty; the violations say why
                 oc.notes.append(f"coverage cells not reached: {missing[:12]}")
+        sig = {}
+        for b, _ in oc.violations:
+            k = f"{b.get('clause')}|{b.get('stratum')}|fam={b.get('fam')}|strategy={'shared' if b.get('shared') else 'fresh'}"
+            sig[k] = sig.get(k, 0) + 1
+        oc.extra["violation_signatures"] = dict(sorted(sig.items()))
         oc.extra["design_models"] = model_info
         oc.extra["runs_of_minimize"] = oc.cov.get("cb|initial", 0)
         oc.extra["iterations_validated"] = sum(v for k, v in oc.cov.items() if k.startswith("iter|"))
